@@ -1,6 +1,6 @@
 """C05 — inbound publishes are acked correctly; QoS 2 messages surface exactly once."""
 import re
-from ..mir import show, short, norm, subexprs
+from ..mir import show, short, norm, subexprs, var_inits
 from .. import prims
 from ..prims import requires, guard_strs, guarded_any, must_pass
 
@@ -165,6 +165,16 @@ def run(ctx):
     ctx.ob(ok and len(sw) == 1, 'dispatch iterates the swapped-out event queue in order (into_iter, no reordering)', 'dispatch-order', loc=dp.loc())
     bc = dp.calls('MqttClientImpl::broadcast_event')
     ctx.ob(len(bc) >= 1 and all(guarded_any(dp, c.bb, [r' is Publish$']) for c in bc), 'each Publish event is broadcast', 'dispatch-publish', loc=dp.loc())
+    # ---- added after the mutation sweep: wire order starts at the decoder's output queue and the engine's loop over it
+    from . import shared
+    n_ = shared.import_obligations(ctx, 'C03', lambda o: o['key'].endswith('transition|emit'), 'R-C05-5', 'wire order of surfaced messages and of acknowledgements begins with the order of decoded packets')
+    ctx.floor(n_, 1, 'decoder output-order obligation shared with C03')
+    hid_ = ctx.fn('ProtocolState::handle_network_event_incoming_data')
+    it_ = [c for c in hid_.calls('IntoIterator::into_iter', 'into_iter') if show(c.arg(0)) == 'decoded_packets']
+    bad_ = [c.nfn for c in hid_.calls() if c.nfn.split('::')[-1] in ('rev', 'sort', 'sort_by', 'reverse', 'pop_back', 'swap', 'rotate_left', 'rotate_right', 'make_contiguous')]
+    hp_ = hid_.calls('ProtocolState::handle_packet')
+    ctx.ob(len(it_) == 1 and not bad_ and len(hp_) == 1 and guarded_any(hid_, hp_[0].bb, [r'^Iterator::next\(iter\) is Some$']) and (show(hp_[0].arg(1)) == 'packet' and [show(e_) for b_, e_ in var_inits(hid_, 'packet')] == ['(Iterator::next(iter))@Some.0'] or re.match(r'^\(?Iterator::next\(iter\)\)?@Some\.0$', show(hp_[0].arg(1))) is not None),
+           'the engine handles the decoded packets front to back, one handle_packet call per packet (no reordering) (%s)' % bad_, 'handle-order', loc=hid_.loc())
     # ---- added after seed C05-3a: what the engine surfaced is dispatched to the application whatever the outcome of the call
     ctx.rule('R-C05-6', 'T3 must-pass-through', 'events the engine has queued while handling received bytes are dispatched to the application on every path, also when handling ended with an error (a PUBLISH in front of a failing packet in the same read is still delivered; its QoS 2 id is already recorded)')
     hib = ctx.fn('MqttClientImpl::handle_incoming_bytes')
